@@ -213,15 +213,42 @@ theorem validForList_true : ∀ ks : List Tree,
   | k :: ks => by simp [Tree.validFor.validForList, Tree.valid.validList, validFor_true k, validForList_true ks]
 end
 
-/-- No filter, any text comparison: the canonical forms are related up to `cmp`. -/
-theorem advancedDeepEqual_all_rel (cmp : TextCmp) (a b : Tree) (va : a.valid = true) (vb : b.valid = true)
-    (na : a.value.isNormal = true) (nb : b.value.isNormal = true) :
+theorem cvalue_rel_isNormal {cmp : TextCmp} {v w : Value} {ks js : List Tree}
+    (h : CValue.rel cmp (cvalue v ks) (cvalue w js) = true) : v.isNormal = w.isNormal := by
+  cases v <;> cases w <;> simp [cvalue, CValue.rel, Value.isNormal, Value.category] at h ⊢
+
+/-- No filter, any text comparison, any two nodes of valid trees: the canonical forms are related
+    up to `cmp`. -/
+theorem advancedDeepEqual_all_rel (cmp : TextCmp) (a b : Tree) (va : a.valid = true) (vb : b.valid = true) :
     advancedDeepEqual (fun _ => true) cmp a b = Canon.rel cmp (canon a) (canon b) := by
-  rw [advancedDeepEqual_eq]
-  have h := relSpec (fun _ => true) cmp a b (by rw [validFor_true]; exact va) (by rw [validFor_true]; exact vb)
-    (by simp [keptBy, na]) (by simp [keptBy, nb])
-  rw [discard_true, discard_true] at h
-  exact h
+  by_cases hn : a.value.isNormal = true ∧ b.value.isNormal = true
+  · obtain ⟨na, nb⟩ := hn
+    rw [advancedDeepEqual_eq _ _ _ _ na nb]
+    have h := relSpec (fun _ => true) cmp a b (by rw [validFor_true]; exact va) (by rw [validFor_true]; exact vb)
+      (by simp [keptBy, na]) (by simp [keptBy, nb])
+    rw [discard_true, discard_true] at h
+    exact h
+  · have h' : ¬ a.value.isNormal = true ∨ ¬ b.value.isNormal = true := by
+      by_cases ha : a.value.isNormal = true
+      · exact Or.inr (fun hb => hn ⟨ha, hb⟩)
+      · exact Or.inl ha
+    rw [advancedDeepEqual_abnormal _ _ _ _ h']
+    obtain ⟨v, ks⟩ := a
+    obtain ⟨w, js⟩ := b
+    obtain ⟨oa, _, _, _⟩ := valid_node va
+    obtain ⟨ob, nb, _, _⟩ := valid_node vb
+    rw [compareValue_eq_rel (a := .node v ks) (b := .node w js) oa ob nb]
+    simp only [Tree.value, Tree.kids, canon, Canon.rel]
+    cases hr : CValue.rel cmp (cvalue v ks) (cvalue w js)
+    · rfl
+    · have hnm := cvalue_rel_isNormal hr
+      simp only [Tree.value] at h'
+      have ha : ¬ v.isNormal = true := by rcases h' with h | h; exact h; rw [hnm]; exact h
+      have hb : ¬ w.isNormal = true := by rw [← hnm]; exact ha
+      have e1 := kids_nil_of_abnormal va (by simpa [Tree.value] using ha)
+      have e2 := kids_nil_of_abnormal vb (by simpa [Tree.value] using hb)
+      simp only [Tree.kids] at e1 e2
+      subst e1 e2; rfl
 
 theorem validFor_of_root {g : Value → Bool} {t : Tree} (h : t.validRootFor g = true) (hk : keptBy g t = true) :
     t.validFor g = true := by
@@ -240,7 +267,9 @@ theorem xpath_elements_rel (cmp : TextCmp) (a b : Tree) (va : a.validRootFor xpa
     cases a with | node v ks => cases v <;> simp_all [keptBy, xpathKeep, Tree.value, Value.isElement, Value.isNormal, Value.category]
   have kb : keptBy xpathKeep b = true := by
     cases b with | node v ks => cases v <;> simp_all [keptBy, xpathKeep, Tree.value, Value.isElement, Value.isNormal, Value.category]
-  rw [advancedDeepEqual_eq]
+  have na : a.value.isNormal = true := by simp only [keptBy, Bool.and_eq_true] at ka; exact ka.1
+  have nb : b.value.isNormal = true := by simp only [keptBy, Bool.and_eq_true] at kb; exact kb.1
+  rw [advancedDeepEqual_eq _ _ _ _ na nb]
   exact relSpec xpathKeep cmp a b (validFor_of_root va ka) (validFor_of_root vb kb) ka kb
 
 /-- The XPath filter on two documents: the document nodes themselves are filtered out, their
@@ -254,7 +283,7 @@ theorem xpath_documents_rel (cmp : TextCmp) (a b : Tree) (va : a.validRootFor xp
   simp only [Tree.value] at da db
   subst da db
   simp only [Tree.validRootFor, Tree.kids, Bool.and_eq_true, List.all_eq_true] at va vb
-  rw [advancedDeepEqual_eq]
+  rw [advancedDeepEqual_eq _ _ _ _ (by rfl) (by rfl)]
   have hl := forestEqv_projList_rel xpathKeep cmp ks js (fun k _ => relSpec xpathKeep cmp k) va.2 vb.2
   have hk : ∀ l : List Tree, keepNode xpathFilter (.node .document l) = false := by
     intro l; simp [keepNode, xpathFilter, Tree.value, Value.isElement, Value.isText]
